@@ -29,7 +29,8 @@ Print Assumptions C19_init_represents.
 (* refinement and frame, one operation: every operation - any index, negative
    ones, index = len(c) for reads and deletes, del c[0], += [], on any list
    including the empty one, any members - except c[len(c)] = v returns what the
-   Python list returns (index() of an absent item: raises), leaves a state that
+   Python list returns (exception class included; [lstep] records the one deviation D1:
+   index() of an absent item on an EMPTY collection raises Exception, not ValueError), leaves a state that
    represents the list's new value with list(c) = the list, and changes no triple
    with a frozen subject.  Stated for any set fz of frozen subjects that contains
    neither rdf:nil nor the head. *)
@@ -37,8 +38,7 @@ Theorem C19_refines : forall fz, fz NIL = false -> fz HEAD = false ->
   forall s xs o, Inv fz s xs -> kf_op xs o = 0%N ->
   let '(s', r) := c_step HEAD s o in
   let '(xs', e) := lstep xs o in
-  Inv fz s' xs' /\ Frame fz (gr s) (gr s') /\ c_iter (gr s') HEAD = RList xs' /\
-  (match o, e with OIndex _, RExc _ => is_exc r = true | _, _ => r = e end).
+  Inv fz s' xs' /\ Frame fz (gr s) (gr s') /\ c_iter (gr s') HEAD = RList xs' /\ r = e.
 Proof. exact refines_step. Qed.
 Print Assumptions C19_refines.
 
@@ -172,11 +172,39 @@ Theorem C19_index_absent_raises : forall g head v,
 Proof. exact index_absent_raises. Qed.
 Print Assumptions C19_index_absent_raises.
 
-(* what the `collreads` suite evaluates: no read hangs, list(c)/len(c) raise on
-   a cyclic chain - for every graph and every sequence of reads *)
-Theorem C19_reads_spec_ok_model : forall c, r_wfb c = true -> r_spec c (r_model c) = true.
+(* which reads raise on a cyclic chain: exactly those that have to walk the whole
+   chain - list(c), len(c), n3(), a negative index (it needs len), an unsuccessful
+   membership test, index() of an absent item; c[i] with i >= 0 walks at most i
+   links and "x in c" / index(x) may find x before the loop closes (they terminate:
+   C19_reads_terminate).  This is the reading of "reads on a cyclic chain raise
+   instead of looping forever" that the check uses. *)
+Theorem C19_cyclic_reads_exact : forall g head, cyclic_iter g head = true ->
+  c_iter g head = RExc ValueError /\ c_len g head = RExc ValueError /\
+  (forall v, c_contains g head v = RBool true \/ c_contains g head v = RExc ValueError) /\
+  (forall i, (i < 0)%Z -> c_getitem g head i = RExc ValueError) /\
+  (forall v, g_has (None, Some FIRST, Some v) g = false -> is_exc (c_index g head v) = true).
+Proof. exact cyclic_reads_exact. Qed.
+Print Assumptions C19_cyclic_reads_exact.
+
+(* what the `collreads` suite evaluates: no read hangs; list(c)/len(c)/n3() raise on
+   a cyclic and on a BROKEN chain, an unsuccessful "x in c" raises on a broken
+   chain - for every graph and every sequence of reads outside trigger F3i *)
+Theorem C19_reads_spec_ok_model : forall c, r_wfb c = true -> r_kf c = 0%N -> r_spec c (r_model c) = true.
 Proof. exact r_spec_model. Qed.
 Print Assumptions C19_reads_spec_ok_model.
+
+(* F3i: on a broken chain - (h first 1) (h rest c) (c first 2), c without rdf:rest -
+   iteration ends silently: list(c) = [1, 2], len(c) = 2, "12 in c" is False; only
+   index() of an absent item raises *)
+Theorem C19_broken_reads_refuted : exists c,
+  r_wfb c = true /\ r_kf c = 1%N /\ r_spec c (r_model c) = false /\
+  r_model c = [RList [1; 2]%N; RNat 2; RBool false; RExc OtherError].
+Proof.
+  exists {| r_graph := [(30, 21, 1); (30, 22, 100); (100, 21, 2)]%N;
+            r_ops := [OIter; OLen; OContains 12%N; OIndex 12%N] |}.
+  repeat split; vm_compute; reflexivity.
+Qed.
+Print Assumptions C19_broken_reads_refuted.
 
 (* ---- the code before the repairs did not have the property ---- *)
 
